@@ -162,6 +162,26 @@ def unit_noisy(a):
     return stats
 
 
+def check_formatter_reuse(case, stats):
+    """one Parser(TokenFormatterBuilder()) - as scripts.generate_tokens uses it - after a parse that was aborted before EOF"""
+    p = gh.Parser(gh.TokenFormatterBuilder())
+    stats.case((case["prev"], case["text"], case["stop"]), True, sample=case)
+    p.stop_at_first_error = case["stop"]
+    try:
+        p.parse(case["prev"], gh.TokenMatcher("en"))
+    except gh.ParserError:
+        pass
+    p.stop_at_first_error = False
+    try:
+        got = p.parse(case["text"], gh.TokenMatcher("en"))
+    except gh.ParserError as e:
+        raise Violation(case, "valid document rejected after an aborted parse with the same parser: %s" % e)
+    want = listing(case["text"])
+    if got != want:
+        raise Violation(case, "token listing from a parser/formatter used before (earlier document aborted) has %d lines, a fresh one %d; first lines %r vs %r" % (
+            len(got.split("\n")), len(want.split("\n")), got.split("\n")[:2], want.split("\n")[:2]))
+
+
 def unit_prev_combos(a):
     """every short fault combination parsed in stop mode (aborted at its first error) right before a valid document"""
     import itertools
@@ -178,6 +198,9 @@ def unit_prev_combos(a):
                 for nx in nexts:
                     yield {"sub": "text", "label": "after-aborted-parse", "prev": "\n".join(lines) + "\n", "text": nx}
     sweep(stats, gen(), check_text)
+    prevs = ["Feature: f\n Scenario: s\n  Given x\n   \"\"\"\n   open\n", "Feature: f\n @t\n", "garbage\nFeature: f\n", "Feature: f\n" + "".join(" bad %d\n" % i for i in range(12)),
+             "Feature: f\n Scenario: s\n  Given x\n   | a | b |\n   | c |\n @t\n\n Scenario: t\n", "Feature: ok\n"]
+    sweep(stats, [{"sub": "formatter-reuse", "prev": pv, "text": nx, "stop": st_} for pv in prevs for nx in nexts for st_ in (False, True)], check_formatter_reuse)
     return stats
 
 
@@ -256,7 +279,7 @@ def unit_golden(a):
 
 
 def replay(case, stats):
-    return {"kinds": check_kinds, "text": check_text, "listing": check_listing, "golden": check_golden, "script": check_script}[case["sub"]](case, stats)
+    return {"kinds": check_kinds, "text": check_text, "listing": check_listing, "golden": check_golden, "script": check_script, "formatter-reuse": check_formatter_reuse}[case["sub"]](case, stats)
 
 
 def run(ctx):
